@@ -986,3 +986,23 @@ def fn_terms(repo, fi):
     if k not in _ft_cache:
         _ft_cache[k] = (fi, FnTerms(repo, fi))
     return _ft_cache[k][1]
+
+
+def norm_concat(t, depth=0):
+    """Byte-string concatenation in one spelling: b''.join([a, b]) / b''.join((a, b)) / bytes(x) / bytearray(x) of a concatenation
+    become the left-nested + chain of their pieces (everywhere inside t)."""
+    if depth > 60 or not isinstance(t, tuple) or not t:
+        return t
+    t = tuple(norm_concat(x, depth + 1) if isinstance(x, tuple) else x for x in t)
+    if t[0] == "mcall" and t[2] == "join" and t[1] == ("const", b"") and len(t[3]) == 1 and not t[4] and isinstance(t[3][0], tuple) and \
+            t[3][0] and t[3][0][0] in ("list", "tuple") and len(t[3][0][1]) >= 1:
+        parts = list(t[3][0][1])
+        e = parts[0]
+        for x in parts[1:]:
+            e = ("binop", "Add", e, x)
+        return e
+    if t[0] == "call" and t[1] in ("bytes", "bytearray") and len(t[2]) == 1 and not t[3]:
+        inner = t[2][0]
+        if isinstance(inner, tuple) and inner and ((inner[0] == "binop" and inner[1] == "Add") or (inner[0] == "call" and inner[1] in ("os.urandom", "bytes", "bytearray"))):
+            return inner
+    return t
